@@ -77,7 +77,7 @@ func checkC14(p *Prog, r *Report) {
 	}
 	exempt := map[string]string{
 		"Server": "encoded literally as --server", "Sender": "encoded literally as --sender (inverted role)", "InfoGTE": "display only", "DebugGTE": "display only",
-		"Progress": "display only; server output goes to its log", "XferDirs": "derived from Recurse in ParseArguments", "PreserveHardLinks": "the server only uses it to refuse; not implemented on either end",
+		"Progress": "display only; server output goes to its log", "PreserveHardLinks": "the server only uses it to refuse; not implemented on either end",
 		"Verbose": "", "Daemon": "listener mode, not a transfer option", "LocalServer": "client-side only",
 	}
 	consulted := map[string]string{}
@@ -190,10 +190,32 @@ func checkRoundTrip(p *Prog, r *Report, so *ssa.Function, accField map[string]*t
 	sort.Slice(cmps, func(i, j int) bool { return cmps[i].name < cmps[j].name })
 	bad := map[string]string{}
 	unknownTok := map[string]bool{}
+	// option post-processing both ends run after parsing: `if o.A != 0 { o.B = k }`
+	impl := optionImplications(p)
+	for _, im := range impl {
+		r.Info("C14/ROUNDTRIP: post-processing implication %s != 0 ⇒ %s = %d", im.from.Name(), im.to.Name(), im.val)
+	}
 	for m := 0; m < 1<<len(atoms); m++ {
 		val := map[string]bool{}
 		for i, a := range atoms {
 			val[a] = m&(1<<i) != 0
+		}
+		// a client state that its own post-processing excludes is not a state
+		feasible := true
+		for _, im := range impl {
+			for _, a := range atoms {
+				if accField[a] != im.from || !val[a] {
+					continue
+				}
+				for _, b := range atoms {
+					if accField[b] == im.to && !val[b] && im.val != 0 {
+						feasible = false
+					}
+				}
+			}
+		}
+		if !feasible {
+			continue
 		}
 		fields := map[*types.Var]int64{}
 		for _, e := range ems {
@@ -213,6 +235,15 @@ func checkRoundTrip(p *Prog, r *Report, so *ssa.Function, accField map[string]*t
 			}
 			for _, a := range eff {
 				fields[a.fld] = a.val
+			}
+		}
+		for changed := true; changed; {
+			changed = false
+			for _, im := range impl {
+				if fields[im.from] != 0 && fields[im.to] != im.val {
+					fields[im.to] = im.val
+					changed = true
+				}
 			}
 		}
 		for _, c := range cmps {
@@ -670,6 +701,91 @@ func recognisedGuards(p *Prog, r *Report, in ssa.Instruction, tok string, serial
 				}
 			}
 			r.Unk("C14/ROUNDTRIP", "emission of "+tok+" under an unrecognised condition", p.Pos(instrPos(in)), "ServerOptions emits under a condition that is not a plain option accessor; the round-trip table cannot be composed")
+		}
+	}
+	return out
+}
+
+type optImplication struct {
+	from, to *types.Var
+	val      int64
+}
+
+// optionImplications extracts, from the functions of package rsyncopts, the
+// post-processing steps of the shape `if o.A != 0 { o.B = k }` (the true
+// successor is entered only over that edge and stores a constant into another
+// field of Options). Both ends run them after parsing, so they relate the
+// fields of a parsed option set.
+func optionImplications(p *Prog) []optImplication {
+	optsObj := p.Obj(pkgOpts, "Options")
+	if optsObj == nil {
+		return nil
+	}
+	isOptsField := func(v ssa.Value) *types.Var {
+		base, f := fieldOfAddr(v)
+		if f == nil || base == nil {
+			return nil
+		}
+		pt, ok := base.Type().Underlying().(*types.Pointer)
+		if !ok || !types.Identical(pt.Elem(), optsObj.Type()) {
+			return nil
+		}
+		return f
+	}
+	var out []optImplication
+	for _, fn := range p.FuncsInPkg(pkgOpts) {
+		for _, b := range fn.Blocks {
+			ifi, ok := lastInstr(b).(*ssa.If)
+			if !ok {
+				continue
+			}
+			bo, ok := ifi.Cond.(*ssa.BinOp)
+			if !ok {
+				continue
+			}
+			k, isK := constInt(bo.Y)
+			if !isK || k != 0 || (bo.Op != token.NEQ && bo.Op != token.GTR) {
+				continue
+			}
+			ld, ok := bo.X.(*ssa.UnOp)
+			if !ok || ld.Op != token.MUL {
+				continue
+			}
+			from := isOptsField(ld.X)
+			if from == nil {
+				continue
+			}
+			succ := b.Succs[0]
+			if !edgeDominates(b, succ) {
+				continue
+			}
+			// not nested under another option test (the step must be unconditional)
+			nested := false
+			for _, f := range FactsAtBlock(b) {
+				if c, ok := f.Cond.(*ssa.BinOp); ok {
+					for _, side := range []ssa.Value{c.X, c.Y} {
+						if l2, ok := side.(*ssa.UnOp); ok && l2.Op == token.MUL && isOptsField(l2.X) != nil {
+							nested = true
+						}
+					}
+				}
+			}
+			if nested {
+				continue
+			}
+			for _, in := range succ.Instrs {
+				st, ok := in.(*ssa.Store)
+				if !ok {
+					continue
+				}
+				to := isOptsField(st.Addr)
+				if to == nil || to == from {
+					continue
+				}
+				if v, ok := constInt(st.Val); ok {
+					out = append(out, optImplication{from, to, v})
+				}
+			}
 		}
 	}
 	return out
